@@ -116,9 +116,15 @@ def register_choices(db):
                   f"implies(result is not None, exists('int', lambda j: 0 <= j and j < len({ELEMS}) and result == {ELEMS}[j] "
                   f"and not {ELEMS}[j].any_type and {ELEMS}[j].clazz is None and {ELEMS}[j].tokens == is_tokens))")],
         raises={"KeyError": True, "IndexError": True, "TypeError": True},
-        loops=[Loop(invariants=[], header="self.elements.values()")],
-        properties=["C14", "C04"],
-        note="IndexError/KeyError/TypeError: artefacts of the abstract value (value[0] of a token list)",
+        loops=[Loop(invariants=[], header="self.elements.values()",
+                    step=[("a-choice-is-picked-because-it-declares-exactly-the-value-type-or-accepts-its-lexical-form",
+                           "implies(_outcome == 'return', not element.any_type and element.clazz is None and element.tokens == is_tokens and "
+                           "(is_tokens or (tp in element.types) or uf('converter.test', 'bool', value, element.types)))"),
+                          ("a-choice-that-declares-exactly-the-value-type-ends-the-search",
+                           "implies(not element.any_type and element.clazz is None and element.tokens == is_tokens and (tp in element.types), _outcome == 'return')")])],
+        properties=["C14", "C04", "C03"],
+        note="IndexError/KeyError/TypeError: artefacts of the abstract value (value[0] of a token list); C03: the serializer "
+             "writes a value of a compound field under the element name of the choice this function picks",
     ))
 
 
